@@ -39,7 +39,7 @@ def get_summary(profile='dev', use_cache=True, verbose=False, merge_bool=True):
         r = subprocess.run([os.path.join(VERIF, 'extract.sh'), fpath, profile.split('-')[0]], capture_output=True, text=True)
         if r.returncode != 0 or not os.path.exists(fpath):
             sys.stdout.write(r.stdout[-3000:]); sys.stderr.write(r.stderr[-3000:])
-            raise SystemExit('EXTRACT-FAILED: the driver could not analyse /repo (does it compile?)')
+            print('EXTRACT-FAILED: the driver could not analyse %s (does it compile?)' % REPO); sys.exit(2)
         t1 = time.time()
         import interp
         summ = interp.analyse(fpath, None, verbose=verbose, merge_bool=merge_bool)
